@@ -241,6 +241,8 @@ class REPEX_state:
             self.swap(traj_idx, ens)
             self.lock(ens)
             trajs.append(self._trajs[ens])
+        # keep the re-issued job in the lock list so a later restart sees it
+        self.locked.append((list(enss), [str(i) for i in trajs0]))
         if self.printing():
             self.print_pick(tuple(enss), tuple(trajs0), self.cworker)
         picked = {}
